@@ -32,7 +32,7 @@ Scenario == /\ IsEvent("Scenario") /\ pc = "done"
             /\ ran' = [x \in 1..Len(E.sc.docs) |-> <<>>] /\ wall' = [x \in 1..Len(E.sc.docs) |-> 0]
             /\ exit' = None /\ pc' = "start"
 
-IsCram == sc.docs[d].fmt = "cram"
+IsCram == Script(sc, d)
 Faulty == (\E j \in 1..NDocs : sc.docs[j].fault # "no") \/ sc.noshell
 
 \* DocStart is emitted just before the executor runs: the document was read, parsed and assembled
